@@ -10,8 +10,12 @@ extern "C" {
 namespace {
 using namespace regm;
 
-static RegisterValue mkval(int type, uint64_t bits) {
-    RegisterValue v; memset(&v, 0, sizeof v);
+// Octets of a value union beyond the member that belongs to its type carry no meaning (a caller may re-use an object that held a
+// wider value before): they are filled with the plan's "dirt" octet, so that nothing can come to depend on them being zero.
+// Operand objects and the objects inside the table description (defaults, limits) get independent dirt.
+static uint8_t g_dirt = 0, g_dirt_tbl = 0;
+static RegisterValue mkval(int type, uint64_t bits, bool for_table = false) {
+    RegisterValue v; memset(&v, 0, sizeof v); memset(&v.value, for_table ? g_dirt_tbl : g_dirt, sizeof v.value);
     v.type = (RegisterType)type;
     switch (type) {
     case T_U16: v.value.u16 = (uint16_t)bits; break;
@@ -25,7 +29,7 @@ static RegisterValue mkval(int type, uint64_t bits) {
     }
     return v;
 }
-static RegisterValueU mkvalu(int type, uint64_t bits) { return mkval(type, bits).value; }
+static RegisterValueU mkvalu(int type, uint64_t bits) { return mkval(type, bits, true).value; }
 static uint64_t bits_of(const RegisterValue &v) {
     switch ((int)v.type) {
     case T_U16: return v.value.u16;
@@ -180,15 +184,15 @@ struct RegHarness : Harness {
     }
     std::vector<std::string> probes(const std::string &p) const override {
         if (p == "C01") return {"handle_eq_entries", "handle_beyond", "float_nan", "float_inf", "float_subnormal", "float_negative_zero", "type_mismatch_refused",
-                                "constraint_refused", "always_fail_refused", "set_accepted", "unsafe_bypasses_constraint", "callback_area_set", "get_undecodable_storage", "big_endian_table", "sanitise_left_through_error_path", "first_init_failed_then_retried"};
+                                "constraint_refused", "always_fail_refused", "set_accepted", "unsafe_bypasses_constraint", "callback_area_set", "get_undecodable_storage", "big_endian_table", "sanitise_left_through_error_path", "first_init_failed_then_retried", "value_objects_with_stale_octets"};
         if (p == "C02") return {"write_inside_64bit_register", "partial_overlap_violates_constraint", "block_spans_two_areas", "block_into_readonly", "block_into_hole",
-                                "block_write_accepted", "block_decode_failure", "zero_length_write", "readonly_not_at_request_start"};
+                                "block_write_accepted", "block_decode_failure", "zero_length_write", "readonly_not_at_request_start", "value_objects_with_stale_octets"};
         if (p == "C03") return {"read_write_only_area_mid_area", "read_spans_two_areas", "read_into_hole", "zero_length_read", "iteration_starts_in_gap", "iteration_starts_mid_register",
-                                "iteration_stopped_by_callback", "iteration_negative_callback", "iteration_visits_several", "reinit_after_registers_removed"};
+                                "iteration_stopped_by_callback", "iteration_negative_callback", "iteration_visits_several", "reinit_after_registers_removed", "value_objects_with_stale_octets"};
         if (p == "C04") return {"defect_no_areas", "defect_areas_swapped", "defect_area_overlap", "defect_regs_swapped", "defect_reg_overlap", "defect_reg_straddles_area_end",
-                                "defect_reg_in_hole", "defect_bad_default", "wellformed_accepted", "restart_over_surviving_callback_storage", "ops_report_uninitialised", "empty_area_between_populated", "reinit_of_initialised_table_rejected", "reinit_after_registers_removed"};
+                                "defect_reg_in_hole", "defect_bad_default", "wellformed_accepted", "restart_over_surviving_callback_storage", "ops_report_uninitialised", "empty_area_between_populated", "reinit_of_initialised_table_rejected", "reinit_after_registers_removed", "value_objects_with_stale_octets"};
         return {"invariant_checked_ops", "refused_op_left_storage_unchanged", "bit_set_exact", "bit_clear_exact", "bit_op_refused_signed_or_float", "sanitise_reset_some_kept_some",
-                "corrupt_then_sanitise", "block_write_refused_by_constraint", "sanitise_left_through_error_path"};
+                "corrupt_then_sanitise", "block_write_refused_by_constraint", "sanitise_left_through_error_path", "value_objects_with_stale_octets"};
     }
     Json describe(const std::string &p) const override {
         Json d = Json::obj();
@@ -450,6 +454,7 @@ struct RegHarness : Harness {
             apply_defect(ts, defect, r);
         }
         if (prop != "C04" && r.chance(1, 5)) p["init_fault"] = (long long)r.below(8);
+        { static const int DIRT[] = {0, 0, 0, 0xff, 0xa5, 0x80, 0x01, 0x7f}; p["dirt"] = DIRT[r.below(8)]; p["dirt_tbl"] = r.chance(1, 2) ? 0 : DIRT[r.below(8)]; }
         p["table"] = spec_json(ts);
         Json ops = Json::arr();
         if (!ts.areas.empty()) {
@@ -465,6 +470,8 @@ struct RegHarness : Harness {
         Sim S(c);
         S.spec = spec_from(plan.get("table"));
         const std::string &P = c.prop;
+        g_dirt = (uint8_t)(plan.geti("dirt") & 0xff); g_dirt_tbl = (uint8_t)(plan.geti("dirt_tbl") & 0xff);
+        if (g_dirt != g_dirt_tbl) COUNT("probe.value_objects_with_stale_octets");
         S.build(true);
         // ---- initialisation
         std::vector<std::vector<uint16_t>> cb_before = S.cbstore;
